@@ -175,7 +175,7 @@ class OrsoTypes(str, Enum):
                 warn("Column type BSON will be deprecated in a future version, use JSONB instead.")
                 _type = OrsoTypes.JSONB
             elif parsed_types == "STRING":
-                raise ValueError(f"Unknown type '{_type}'. Did you mean 'VARCHAR'?")
+                raise ValueError(f"Unknown type '{name}'. Did you mean 'VARCHAR'?")
             elif (
                 type_name == "0"
                 or type_name == 0
